@@ -295,9 +295,10 @@ class LSFScriptAdapter(SchedulerScriptAdapter):
 
         if retcode == 0:
             LOGGER.info("Submission returned status OK.")
-            return SubmissionRecord(
-                SubmissionCode.OK, retcode,
-                re.search('[0-9]+', output).group(0))
+            # Prefer the acceptance line; esub output before it may hold digits.
+            jid = (re.search(r'Job <([0-9]+)>', output)
+                   or re.search('([0-9]+)', output)).group(1)
+            return SubmissionRecord(SubmissionCode.OK, retcode, jid)
         else:
             LOGGER.warning("Submission returned an error.")
             return SubmissionRecord(SubmissionCode.ERROR, retcode, -1)
